@@ -42,6 +42,9 @@ pub struct Ctx {
   pub seed: u64,
   pub verif_dir: String,
   pub threads: usize,
+  /// this process is the `plain`-profile child of a checked run: no evidence file,
+  /// a machine-readable summary line instead
+  pub sub: bool,
 }
 
 /// What a check reports about one case that held.
@@ -68,6 +71,18 @@ impl CaseInfo {
 
 pub type CheckResult = Result<CaseInfo, String>;
 
+/// Outcome of an extra stage.
+pub struct Stage {
+  pub name: String,
+  pub evaluations: u64,
+  pub nontrivial: u64,
+  /// (reason, replay path)
+  pub failure: Option<(String, String)>,
+  /// the stage could not run (tool missing, build failed): the run is inconclusive
+  pub inconclusive: Option<String>,
+  pub details: serde_json::Value,
+}
+
 pub enum Cases<C> {
   /// proptest strategy (built once per worker thread), number of cases (quick, thorough)
   Generated(Box<dyn Fn() -> BoxedStrategy<C> + Send + Sync>, u64, u64),
@@ -91,6 +106,11 @@ pub trait Prop: Sync {
     tier.pick(50, 500)
   }
   fn assumptions(&self) -> Vec<String> {
+    vec![]
+  }
+  /// further stages run after the legs when they found nothing (the same legs on the
+  /// `plain` build profile in a child process, coverage-guided fuzz campaigns)
+  fn stages(&self, _ctx: &Ctx) -> Vec<Stage> {
     vec![]
   }
   /// extra keys for the coverage object (e.g. exhaustive flags)
@@ -183,9 +203,53 @@ fn shard_seed(seed: u64, prop: &str, leg: &str, shard: usize) -> [u8; 32] {
   out
 }
 
+/// Watchdog: a case that does not finish within the limit makes the run
+/// *inconclusive* (exit 2), never a violation.
+const CASE_LIMIT_S: u64 = 300;
+static SLOT_COUNT: AtomicU64 = AtomicU64::new(0);
+static SLOTS: Mutex<Vec<Option<(Instant, String)>>> = Mutex::new(Vec::new());
+thread_local! {
+  static MY_SLOT: usize = {
+    let k = SLOT_COUNT.fetch_add(1, Ordering::SeqCst) as usize;
+    let mut s = SLOTS.lock().unwrap();
+    while s.len() <= k { s.push(None); }
+    k
+  };
+}
+
+pub fn start_watchdog() {
+  std::thread::spawn(|| loop {
+    std::thread::sleep(std::time::Duration::from_millis(500));
+    let stuck: Option<String> = {
+      let s = SLOTS.lock().unwrap();
+      s.iter().flatten().find(|(t, _)| t.elapsed().as_secs() > CASE_LIMIT_S).map(|(_, j)| j.clone())
+    };
+    if let Some(json) = stuck {
+      let prop = CURRENT_PROP.lock().map(|p| p.clone()).unwrap_or_default();
+      let dir = VERIF_DIR.lock().map(|p| p.clone()).unwrap_or_default();
+      let path = write_replay_raw(&dir, &prop, &json, "watchdog: case did not finish within the limit");
+      println!("INCONCLUSIVE property={prop}: a case did not finish within {CASE_LIMIT_S} s (saved as {path})");
+      use std::io::Write;
+      let _ = std::io::stdout().flush();
+      std::process::exit(2);
+    }
+  });
+}
+
 fn eval_case<P: Prop>(p: &P, case: &P::Case) -> (String, CheckResult) {
   let json = serde_json::to_string(case).expect("case serialises");
   CURRENT_CASE.with(|c| *c.borrow_mut() = json.clone());
+  let slot = MY_SLOT.with(|s| *s);
+  SLOTS.lock().unwrap()[slot] = Some((Instant::now(), json.clone()));
+  struct Clear(usize);
+  impl Drop for Clear {
+    fn drop(&mut self) {
+      if let Ok(mut s) = SLOTS.lock() {
+        s[self.0] = None;
+      }
+    }
+  }
+  let _clear = Clear(slot);
   let r = match guard(|| p.check(case)) {
     Ok(r) => r,
     Err(panic) => Err(format!("the harness or the library panicked outside a guarded call: {panic}")),
@@ -205,7 +269,7 @@ pub fn run_prop<P: Prop>(p: &P, ctx: &Ctx) -> i32 {
   let mut known_lines: Vec<String> = vec![];
 
   // 1. replay the open known findings of this property
-  let known = crate::known::load(&ctx.verif_dir);
+  let known = if ctx.sub { vec![] } else { crate::known::load(&ctx.verif_dir) };
   for k in known.iter().filter(|k| k.property == P::ID && k.status == "open") {
     let path = format!("{}/{}", ctx.verif_dir, k.replay);
     match std::fs::read_to_string(&path)
@@ -424,11 +488,53 @@ pub fn run_prop<P: Prop>(p: &P, ctx: &Ctx) -> i32 {
 
   let stats = stats.into_inner().unwrap();
   let failure = failure.into_inner().unwrap();
+  // 3. extra stages
+  let mut stage_details = serde_json::Map::new();
+  let mut stage_eval = 0u64;
+  let mut stage_nt = 0u64;
+  let mut stage_failure: Option<(String, String, String)> = None;
+  let mut stage_inconclusive: Option<String> = None;
+  if failure.is_none() && !ctx.sub {
+    for st in p.stages(ctx) {
+      stage_eval += st.evaluations;
+      stage_nt += st.nontrivial;
+      stage_details.insert(st.name.clone(), st.details);
+      if let Some(why) = st.inconclusive {
+        stage_inconclusive = Some(format!("stage {}: {why}", st.name));
+      }
+      if let Some((reason, path)) = st.failure {
+        stage_failure = Some((st.name, reason, path));
+        break;
+      }
+    }
+  }
   let wall = t0.elapsed().as_secs_f64();
-  let violations = failure.is_some() as i64;
+  let violations = (failure.is_some() || stage_failure.is_some()) as i64;
+  if ctx.sub {
+    // child of a checked run: machine-readable summary, no evidence file
+    let (freason, fpath) = match &failure {
+      Some(f) => (Some(f.reason.clone()), Some(write_replay_raw(&ctx.verif_dir, P::ID, &f.case_json, &f.reason))),
+      None => (None, None),
+    };
+    println!(
+      "SUBRESULT {}",
+      serde_json::json!({
+        "evaluations": stats.evaluations,
+        "distinct_nontrivial": stats.nontrivial.len(),
+        "excluded_known": stats.excluded_known,
+        "failure": freason,
+        "replay": fpath,
+        "wall_s": wall,
+      })
+    );
+    return if failure.is_some() { 1 } else { 0 };
+  }
   let mut coverage = serde_json::Map::new();
-  coverage.insert("evaluations".into(), stats.evaluations.into());
-  coverage.insert("distinct_nontrivial".into(), (stats.nontrivial.len() as u64).into());
+  coverage.insert("evaluations".into(), (stats.evaluations + stage_eval).into());
+  coverage.insert("distinct_nontrivial".into(), (stats.nontrivial.len() as u64 + stage_nt).into());
+  if !stage_details.is_empty() {
+    coverage.insert("stages".into(), serde_json::Value::Object(stage_details));
+  }
   coverage.insert("rule".into(), p.rule().into());
   coverage.insert("samples".into(), serde_json::Value::Array(stats.samples.clone()));
   coverage.insert(
@@ -487,6 +593,15 @@ pub fn run_prop<P: Prop>(p: &P, ctx: &Ctx) -> i32 {
     println!("VIOLATION property={} replay={}", P::ID, path);
     return 1;
   }
+  if let Some((name, reason, path)) = stage_failure {
+    println!("stage {name}: {reason}");
+    println!("VIOLATION property={} replay={}", P::ID, path);
+    return 1;
+  }
+  if let Some(why) = stage_inconclusive {
+    println!("INCONCLUSIVE property={}: {why}", P::ID);
+    return 2;
+  }
   if (stats.nontrivial.len() as u64) < p.floor(ctx.tier) {
     println!(
       "INCONCLUSIVE property={}: only {} distinct non-trivial cases (floor {})",
@@ -536,4 +651,57 @@ pub fn replay_prop<P: Prop>(p: &P, ctx: &Ctx, path: &str) -> i32 {
 /// helper for shrinking-free sampling of a strategy (used by a few legs)
 pub fn sample<T: std::fmt::Debug>(s: &BoxedStrategy<T>, runner: &mut TestRunner) -> T {
   s.new_tree(runner).expect("strategy").current()
+}
+
+/// Run the same property on the `plain` build profile (release semantics: wrapping
+/// arithmetic, no debug assertions) in a child process.
+pub fn plain_stage(id: &str, ctx: &Ctx) -> Stage {
+  let bin = std::env::var("VERIF_PLAIN_BIN").unwrap_or_else(|_| format!("{}/harness/target/plain/vcheck", ctx.verif_dir));
+  let mut st = Stage {
+    name: "same legs on the plain (release-semantics) build".into(),
+    evaluations: 0,
+    nontrivial: 0,
+    failure: None,
+    inconclusive: None,
+    details: serde_json::Value::Null,
+  };
+  if !std::path::Path::new(&bin).exists() {
+    st.inconclusive = Some(format!("plain-profile binary {bin} not built"));
+    return st;
+  }
+  let out = std::process::Command::new(&bin)
+    .arg(id)
+    .arg(ctx.tier.name())
+    .arg("--sub")
+    .env("VERIF_SEED", ctx.seed.to_string())
+    .env("VERIF_DIR", &ctx.verif_dir)
+    .env("VERIF_THREADS", ctx.threads.to_string())
+    .output();
+  match out {
+    Err(e) => st.inconclusive = Some(format!("cannot run {bin}: {e}")),
+    Ok(o) => {
+      let text = String::from_utf8_lossy(&o.stdout).to_string();
+      match text.lines().find_map(|l| l.strip_prefix("SUBRESULT ")) {
+        Some(j) => {
+          let v: serde_json::Value = serde_json::from_str(j).unwrap_or(serde_json::Value::Null);
+          st.evaluations = v["evaluations"].as_u64().unwrap_or(0);
+          st.nontrivial = v["distinct_nontrivial"].as_u64().unwrap_or(0);
+          if let Some(r) = v["failure"].as_str() {
+            st.failure = Some((format!("plain build: {r}"), v["replay"].as_str().unwrap_or("").to_string()));
+          }
+          st.details = v;
+        }
+        None => {
+          // the child died (abort / signal) or printed a VIOLATION from its abort hook
+          if let Some(l) = text.lines().find(|l| l.starts_with("VIOLATION ")) {
+            let path = l.split("replay=").nth(1).unwrap_or("").to_string();
+            st.failure = Some((format!("plain build aborted: {}", text.lines().next().unwrap_or("")), path));
+          } else {
+            st.inconclusive = Some(format!("plain-profile child ended without a result (status {:?}): {}", o.status, text.chars().take(400).collect::<String>()));
+          }
+        }
+      }
+    }
+  }
+  st
 }
